@@ -90,7 +90,8 @@ namespace vd
     js::val mode_registry(const js::val& req);
     js::val mode_eval(const js::val& req);       // run texts to completion, in-process
     js::val mode_pp(const js::val& req);
-    js::val mode_front(const js::val& req);      // textual front ends, totality + determinism
+    js::val mode_front(const js::val& req);
+    js::val mode_roundtrip(const js::val& req);  // str/compile and pretty-printer round trips      // textual front ends, totality + determinism
     js::val mode_values(const js::val& req);     // relations between values (C07)
     js::val mode_mt(const js::val& req);         // two-thread exploration (C19/C20)
     js::val mode_api(const js::val& req);        // C API histories (C18)
